@@ -217,6 +217,21 @@ pub fn main(a: &Args) {
             emit_case(&mut krate, &Case { origin: "fancy".into(), text: text.into(), inputs, lex: (true, true), fancy: true, fixed: None }, &mut rep);
             rep.count("fancy_regex_cases", 1);
         }
+        if a.shard == 2 {
+            // two terminals with one recogniser, both expected in one state (the typedef-name / identifier idiom, a keyword
+            // under two names): the expected-token lists of the source must keep both, GLR follows both
+            let text = "S: Decl+;\nDecl: Tname Name Semi | Name Eq Name Semi | Kw Name Semi | Kx Name Eq Semi;\nterminals\nTname: /[a-z]+/;\nName: /[a-z]+/;\nKw: 'let';\nKx: 'let';\nSemi: ';';\nEq: '=';\n";
+            let inputs: Vec<String> = ["t x;", "x = y;", "let x;", "let x =;", "t x; x = y; let z;", "x y z;", "let let;", "let = let;", "= x;", "t", ""].iter().map(|x| x.to_string()).collect();
+            emit_case(&mut krate, &Case { origin: "twins".into(), text: text.into(), inputs, lex: (true, true), fancy: false, fixed: None }, &mut rep);
+            rep.count("twin_recogniser_cases", 1);
+        }
+        if a.shard == 4 {
+            // a regex that starts with `^`: it anchors the first alternative only, the generated anchor group is still needed
+            let text = "S: Item+;\nItem: Keyword | Num | Op;\nterminals\nKeyword: /^let|var/;\nNum: /\\d+/;\nOp: /^\\+|-|^\\*/;\n";
+            let inputs: Vec<String> = ["12 var 7 let", "let 1 var", "var", "1 2 3 var", "1 + 2 - 3 * 4", "7 -", "+ var", "1\n2 var\n3 let -", "x var", ""].iter().map(|x| x.to_string()).collect();
+            emit_case(&mut krate, &Case { origin: "anchored".into(), text: text.into(), inputs, lex: (true, true), fancy: false, fixed: None }, &mut rep);
+            rep.count("caret_regex_cases", 1);
+        }
         if a.shard == 1 {
             // tables with hundreds of states and dozens of terminals / non-terminals (enum sizes, wide rows, long match arms)
             let mut made_big = 0;
